@@ -156,6 +156,30 @@ fn gen(tier: &str, rng: &mut Sm) -> Gen {
             g.inputs.push(tl![A(3), L(genes)]);
         }
     }
+    // MANY block openers without depth: k closed one-gene blocks in a row (k around and beyond 1024), then a tail that ends
+    // the genome inside the first / the second block of a two-block instruction, inside a one-block instruction, or after
+    // everything was closed - whatever path long genomes take must still hand out the blocks an instruction is owed
+    for k in [1023usize, 1024, 1025, 1100, 3000] {
+        for tail in [
+            vec![tl![A(30)]],
+            vec![tl![A(30)], tl![A(6), A(1)]],
+            vec![tl![A(30)], tl![A(6), A(1)], A(-1)],
+            vec![tl![A(30)], tl![A(6), A(1)], A(-1), tl![A(6), A(2)]],
+            vec![tl![A(30)], tl![A(6), A(1)], A(-1), tl![A(6), A(2)], A(-1), tl![A(6), A(3)]],
+            vec![tl![A(27)], tl![A(6), A(1)]],
+            vec![tl![A(28)]],
+            vec![tl![A(6), A(1)], A(-1), tl![A(29)], tl![A(30)]],
+        ] {
+            let mut genes: Vec<Tree> = vec![];
+            for i in 0..k {
+                genes.push(tl![A(if i % 7 == 3 { 27 } else { 28 })]);
+                genes.push(tl![A(6), au(i % 5)]);
+                genes.push(A(-1));
+            }
+            genes.extend(tail);
+            g.inputs.push(tl![A(3), L(genes)]);
+        }
+    }
     // genes overwritten in place after the genome was built: a flat genome gets its first block opener, an opener is removed
     for (genes, edits) in [
         (vec![tl![A(6), A(1)], tl![A(6), A(2)], tl![A(6), A(3)], A(-1), tl![A(6), A(4)]], vec![(1usize, tl![A(28)])]),
@@ -174,6 +198,6 @@ fn gen(tier: &str, rng: &mut Sm) -> Gen {
     ] {
         g.inputs.push(tl![A(5), L(genes)]);
     }
-    g.meta("generator", "num_opens probe per instruction + exhaustive small genomes + random genomes (len<=400) + adversarial shapes (all closes, all openers to depth 1000, alternating) + exec literals carrying block-opening instructions / blocks; nesting to depth 2047 / 2049 / 3000 with the structure checked; genes overwritten in place; translation while another thread translates");
+    g.meta("generator", "num_opens probe per instruction + exhaustive small genomes + random genomes (len<=400) + adversarial shapes (all closes, all openers to depth 1000, alternating) + exec literals carrying block-opening instructions / blocks; nesting to depth 2047 / 2049 / 3000 with the structure checked; 1023 ... 3000 closed blocks in a row followed by tails that end the genome inside the first / second block of a two-block instruction; genes overwritten in place; translation while another thread translates");
     g
 }
